@@ -304,6 +304,8 @@ package kcache
 /*@ iface kcache.Subscription.Close
 @*/
 /*@ iface kcache.Subscription.Error
+  theory actors
+  ensures (= result (sub-error $recv))
 @*/
 /*@ iface kcache.CacheReader.List
   theory cachereq
@@ -1930,4 +1932,17 @@ package kcache
   at call(dyncall) assert [calls-the-registered-callback-with-the-same-argument-once] (and (= $fn {h.onDelete}) (= $0 {obj}) (not called))
   at call(dyncall) set called := true
   exit [the-callback-is-called-exactly-when-one-is-registered] (= called (not (= {h.onDelete} vnil)))
+@*/
+
+/*@ func (*kcache.filterSubscription).Error
+  props C14 C11
+  theory actors
+  requires (and (not (= {s} vnil)) (not (= {s.lc} vnil)) (not (= {s.parent} vnil)))
+  ensures [its-own-failure-first-else-the-parents] (= result (ite (not (= (lc-error {s.lc}) vnil)) (lc-error {s.lc}) (sub-error {s.parent})))
+@*/
+/*@ func (*kcache.monitor).Error
+  props C14 C16
+  theory actors
+  requires (and (not (= {m} vnil)) (not (= {m.lc} vnil)) (not (= {m.sub} vnil)))
+  ensures [its-own-failure-first-else-the-subscriptions] (= result (ite (not (= (lc-error {m.lc}) vnil)) (lc-error {m.lc}) (sub-error {m.sub})))
 @*/
